@@ -76,7 +76,7 @@ def generate(seed, tier):
             row[index] = row[index][:2] + rng.choice(["\u2028", "\u0085", "\u2029"])
         table.append(row)
     return {"cid": spec, "table": table, "ios": [simfs.IoConfig.draw(swarm) for _ in range(3)],
-            "ods_features": sorted(swarm.sample(["colruns", "rowruns", "stored", "colstyle", "spans", "annotations", "embedded-object", "links", "row-groups", "header-rows", "covered-cells", "no-value-type"],
+            "ods_features": sorted(swarm.sample(["colruns", "rowruns", "stored", "colstyle", "spans", "annotations", "embedded-object", "links", "row-groups", "header-rows", "covered-cells", "no-value-type", "utf16", "latin1"],
                                                 swarm.randint(0, 2))),
             "other_table_at_same_path_first": swarm.random() < 0.3,
             # file names are whatever the user's tools made of them: cid.ODS, cid.Xlsx
